@@ -31,6 +31,38 @@ def chequesStr (l : List (Nat × Nat)) : String :=
   let sorted := l.mergeSort (fun a b => a.1 < b.1 || (a.1 == b.1 && a.2 ≤ b.2))
   " ".intercalate (sorted.map fun (p, v) => s!"{p}:{v}")
 
+/-- the `(ben rcp cum signer mut)` groups of a `parrecv` line (signer / mutation only matter to the
+    real code; their effect arrives as the `rec=` annotation) -/
+def chunk5 : List String → Option (List Cheque)
+  | [] => some []
+  | b :: r :: c :: _ :: _ :: rest =>
+    match Driver.parseNat b, Driver.parseNat r, Driver.parseNat c, chunk5 rest with
+    | some b, some r, some c, some t => some (⟨b, r, c⟩ :: t)
+    | _, _, _, _ => none
+  | _ => none
+
+def parseList (pre : String) (s : String) (f : String → Option α) : Option (List α) :=
+  if s.startsWith pre then ((s.drop pre.length).toString.splitOn ",").mapM f else none
+
+/-- `parrecv`: k cheques delivered concurrently.  The code serialises deliveries (cheque-store
+    mutex, per-issuer traffic mutex), so the outcome is that of a sequential run in SOME order; the
+    runner reports the order in which the deliveries read the last-cheque record (`ord=`), the model
+    checks that it is a permutation of the k deliveries and runs them in that order. -/
+def parrecv (st : St) (via : Option Nat) (cs : List Cheque) (recs : List (Option Nat)) (ord : List Nat) : St × String :=
+  let k := cs.length
+  if recs.length ≠ k ∨ ord.length ≠ k ∨ !(ord.all (· < k)) ∨ !(ord.eraseDups.length == k) then (st, "bad-annot") else
+  let (st', outs) := ord.foldl (fun (acc : St × List (Nat × String)) j =>
+      let c := cs.getD j ⟨0, 0, 0⟩
+      let r := recs.getD j none
+      match via with
+      | some p =>
+        let (s', res) := receive acc.1 p c r
+        (s', (j, match res with | .store (.ok a) => s!"ok:{a}" | x => resStr x) :: acc.2)
+      | none =>
+        let (s', res) := storeOnly acc.1 c r
+        (s', (j, match res with | .ok a => s!"ok:{a}" | x => storeResStr x) :: acc.2)) (st, [])
+  (st', " ".intercalate ((List.range k).map fun j => ((outs.find? (·.1 == j)).map (·.2)).getD "?"))
+
 def step (st : St) (op : List String) : St × String :=
   match op with
   | ["reg", p, a] =>
@@ -49,6 +81,27 @@ def step (st : St) (op : List String) : St × String :=
       let (st', res) := storeOnly st ⟨ben, rcp, cum⟩ r
       (st', storeResStr res)
     | _, _, _, _ => (st, "bad-op")
+  | ["xrecv", p, ben, rcp, cum, _oben, _orcp, _ocum, _osigner, "|", r] =>
+    match Driver.parseNat p, Driver.parseNat ben, Driver.parseNat rcp, Driver.parseNat cum, parseRec r with
+    | some p, some ben, some rcp, some cum, some r =>
+      let (st', res) := receive st p ⟨ben, rcp, cum⟩ r
+      (st', resStr res)
+    | _, _, _, _, _ => (st, "bad-op")
+  | ["sxrecv", ben, rcp, cum, _oben, _orcp, _ocum, _osigner, "|", r] =>
+    match Driver.parseNat ben, Driver.parseNat rcp, Driver.parseNat cum, parseRec r with
+    | some ben, some rcp, some cum, some r =>
+      let (st', res) := storeOnly st ⟨ben, rcp, cum⟩ r
+      (st', storeResStr res)
+    | _, _, _, _ => (st, "bad-op")
+  | "parrecv" :: via :: _k :: rest =>
+    let body := rest.takeWhile (· ≠ "|")
+    match rest.dropWhile (· ≠ "|") with
+    | ["|", recs, ord] =>
+      let via' : Option (Option Nat) := if via = "s" then some none else (Driver.parseNat via).map some
+      match via', chunk5 body, parseList "rec=" recs (fun x => parseRec ("rec=" ++ x)), parseList "ord=" ord Driver.parseNat with
+      | some via', some cs, some recs, some ord => parrecv st via' cs recs ord
+      | _, _, _, _ => (st, "bad-op")
+    | _ => (st, "bad-op")
   | ["last", p] =>
     match Driver.parseNat p with
     | some p =>
